@@ -38,6 +38,12 @@ pub use gatt::*;
 mod gatt;
 mod session;
 
+/// Verification hooks: re-export of the module-private BTP session type.
+#[cfg(rs_matter_verif)]
+pub mod verif_hooks {
+    pub use super::session::Session;
+}
+
 /// The maximum size of a BTP segment.
 pub(crate) const MAX_BTP_SEGMENT_SIZE: usize = 244;
 /// The size of the GATT header. `MAX_BTP_SEGMENT_SIZE` + `GATT_HEADER_SIZE` is 247 bytes, which is the maximum ATT MTU size supported by the BTP protocol.
@@ -308,6 +314,41 @@ impl Btp {
 
             self.send_notif.wait().await;
         }
+    }
+}
+
+/// Verification hooks: synchronous access to the inner BTP state machine (the same
+/// `BtpInner` methods the async API calls under the lock) and a state snapshot.
+#[cfg(rs_matter_verif)]
+impl Btp {
+    pub fn verif_set_timeouts(&self, ack_timeout_secs: u8, conn_idle_timeout_secs: u8) {
+        self.inner.lock(|inner| {
+            inner
+                .borrow_mut()
+                .set_timeouts(ack_timeout_secs, conn_idle_timeout_secs)
+        });
+    }
+
+    pub fn verif_send(&self, data: &[u8], addr: BtAddr) -> Result<bool, Error> {
+        self.inner.lock(|inner| inner.borrow_mut().send(data, addr))
+    }
+
+    pub fn verif_recv(&self, buf: &mut [u8]) -> Result<Option<(usize, BtAddr)>, Error> {
+        self.inner.lock(|inner| inner.borrow_mut().recv(buf))
+    }
+
+    /// `[session state (see Session::verif_raw) .., out_addr_set, out_buf_len, out_buf_offset]`
+    pub fn verif_state(&self) -> [u32; 20] {
+        self.inner.lock(|inner| {
+            let inner = inner.borrow();
+            let s = inner.session.verif_raw();
+            let mut r = [0u32; 20];
+            r[..17].copy_from_slice(&s);
+            r[17] = (inner.outgoing_sdu.address != BtAddr([0; 6])) as u32;
+            r[18] = inner.outgoing_sdu.buf.len() as u32;
+            r[19] = inner.outgoing_sdu.buf_offset as u32;
+            r
+        })
     }
 }
 
